@@ -16,6 +16,7 @@ var jsonBodies = []string{
 	`{"n":-4,"t":"c","deep":{"a":{"b":{"c":1}}},"gap":{"y":null}}`,
 	`{"n":5.5,"t":"b","u":"ünï©ødé"}`,
 	`{"t":"nokey"}`,
+	`{"n":6,"t":"c","big":9007199254740993,"dec":1.0000000000000000001,"sub":{"p":3,"q":{"r":12345678901234567890}}}`,
 }
 
 var emptyBody = []byte{}
@@ -323,7 +324,7 @@ func (g *Gen) Make(kind string) Op {
 }
 
 var subdocPaths = []string{"gap.x", "gap.y.z", "n", "t", "newprop", "sub.p", "sub.q.r", "sub.newp", "sub.q.newr", "tags.x", "n.x", "missing.x", "deep.a.b.c", "deep.a.b.d", "sub"}
-var subdocValues = []string{`1`, `"str"`, `{"k":"v"}`, `[1,2]`, `true`, `{"p":9,"z":{"y":1}}`}
+var subdocValues = []string{`9007199254740993`, `1`, `"str"`, `{"k":"v"}`, `[1,2]`, `true`, `{"p":9,"z":{"y":1}}`}
 
 // xblob builds the xattr blob handed to SetWithMeta/DeleteWithMeta. rosmar stores that blob verbatim and
 // re-marshals it (compacting whitespace, escaping HTML characters) on the next xattr write, so the blob is
